@@ -24,6 +24,42 @@ end
 
 def showTree (v : Resp) : String := ",".intercalate (render v)
 
+/-- `decbig`: pieces joined by `+`; `h<hex>` literal bytes, `r<n>x<a>` n bytes, the i-th `(i*a + i/256) mod 256` -/
+def expandPiece (p : String) : Option Bytes :=
+  match p.toList with
+  | 'h' :: h => ofHex (String.ofList h)
+  | 'r' :: rest =>
+    match (String.ofList rest).splitOn "x" with
+    | [n, a] => do
+      let n ← n.toNat?
+      let a ← a.toNat?
+      pure ((List.range n).map fun i => UInt8.ofNat ((i * a + i / 256) % 256))
+    | _ => none
+  | _ => none
+
+def expandSpec (s : String) : Option Bytes :=
+  (s.splitOn "+").foldlM (fun acc p => (expandPiece p).map (acc ++ ·)) []
+
+def fnv1a (v : Bytes) : UInt64 :=
+  v.foldl (fun h b => (h ^^^ b.toUInt64) * 0x100000001b3) 0xcbf29ce484222325
+
+def bigRepr (tag : String) (b : Bytes) : String :=
+  if b.length ≤ 64 then tag ++ hexOrDash b else s!"{tag}#{b.length}:{toHex (le64 (fnv1a b)).reverse}"
+
+mutual
+def renderBig : Resp → List String
+  | .str b => [bigRepr "S" b]
+  | .err b => [bigRepr "E" b]
+  | .int i => ["I" ++ toString i]
+  | .bulk none => ["Bn"]
+  | .bulk (some b) => [bigRepr "B" b]
+  | .arr none => ["An"]
+  | .arr (some l) => ("A" ++ toString l.length) :: renderBigL l
+def renderBigL : List Resp → List String
+  | [] => []
+  | x :: xs => renderBig x ++ renderBigL xs
+end
+
 def parseSeq (g : List String → Option (Resp × List String)) : Nat → List String → Option (List Resp × List String)
   | 0, toks => some ([], toks)
   | n + 1, toks =>
@@ -106,6 +142,13 @@ def handle (line : String) : String :=
     | some inp =>
       let (vs, e) := decodeStream true (inp.length + 1) inp 0
       let items := vs.map fun (v, off, unread) => showTree v ++ "@" ++ toString off ++ "/" ++ toString unread
+      ";".intercalate (items ++ ["!" ++ errName e])
+  | ["decbig", spec, _seed, _size] =>
+    match expandSpec spec with
+    | none => "badcase"
+    | some inp =>
+      let (vs, e) := decodeStream true 8 inp 0
+      let items := vs.map fun (v, off, unread) => ",".intercalate (renderBig v) ++ "@" ++ toString off ++ "/" ++ toString unread
       ";".intercalate (items ++ ["!" ++ errName e])
   | ["args", t] =>
     match readTree t with
